@@ -1,5 +1,5 @@
 INIT MCInit
-NEXT XNext
+NEXT CovNext
 CONSTANTS
   Versions = {23}
   QueueSizes = {2}
